@@ -58,6 +58,21 @@ pub fn catalogue() -> Vec<(String, Box<dyn Fn() -> Result<Vec<u8>, String> + Sen
         let name = Name::new(recs);
         write_fonts::dump_table(&name).map_err(|e| format!("{e}"))
     })));
+    v.push(("gsub-equal-lookups".into(), Box::new(|| {
+        // 24 single-substitution lookups of the same size (3 kB each): the lookup list overflows 16-bit offsets and some
+        // lookups have to be promoted to extensions; all candidates tie on density
+        use write_fonts::tables::gsub::{Gsub, SingleSubst, SubstitutionLookup, SubstitutionLookupList};
+        use write_fonts::tables::layout::{Lookup, LookupFlag};
+        let lookups: Vec<SubstitutionLookup> = (0..24u16)
+            .map(|k| {
+                let glyphs: Vec<font_types::GlyphId16> = (0..750u16).map(|i| font_types::GlyphId16::new(10 + 2 * i)).collect();
+                let subst: Vec<font_types::GlyphId16> = (0..750u16).map(|i| font_types::GlyphId16::new(3000 + (i * 7 + k * 13) % 2000)).collect();
+                SubstitutionLookup::Single(Lookup::new(LookupFlag::empty(), vec![SingleSubst::format_2(glyphs.into_iter().collect(), subst)]))
+            })
+            .collect();
+        let gsub = Gsub::new(Default::default(), Default::default(), SubstitutionLookupList::new(lookups));
+        write_fonts::dump_table(&gsub).map_err(|e| format!("{e}"))
+    })));
     v.push(("font-builder".into(), Box::new(|| {
         let mut b = write_fonts::FontBuilder::new();
         for (t, d) in [(b"zzzz", vec![1u8, 2, 3]), (b"head", vec![7u8; 54]), (b"aaaa", vec![]), (b"DSIG", vec![9u8; 5]), (b"glyf", vec![1u8; 13])] {
@@ -113,6 +128,31 @@ pub fn main(args: &[String]) {
             rep.distinct = patterns.len() as u64;
             rep.traces = rep.evaluations;
             rep.sample(json!({"patterns": patterns.iter().take(3).collect::<Vec<_>>(), "values": cat.iter().map(|c| c.0.clone()).collect::<Vec<_>>()}));
+        }
+        Some("longrun") => {
+            // one thread compiles the same values again and again until it has allocated more than `--ids` object ids
+            // (no gaps injected): every result must equal the first one, however far the process-wide counter has moved
+            let want: u64 = arg_after(args, "--ids").map(|s| s.parse().unwrap()).unwrap_or(150_000);
+            let cat = catalogue();
+            graph_verif::set_gap_pattern(vec![]);
+            for (name, f) in cat.iter().filter(|(n, _)| n == "gsub-equal-lookups" || n == "mock-graph-5") {
+                graph_verif::set_logging(true);
+                let reference = guarded(f);
+                let per = graph_verif::take_log().len().max(1) as u64;
+                graph_verif::set_logging(false);
+                let rounds = want / per + 2;
+                rep.add("longrun_ids_per_compilation", per);
+                for round in 0..rounds {
+                    rep.evaluations += 1;
+                    let r = guarded(f);
+                    if r != reference {
+                        rep.violation(&format!("compilation #{round} of {name} in one thread differs from the first one ({} object ids per compilation)", per), json!({"kind": "determinism-longrun", "value": name, "round": round}));
+                        break;
+                    }
+                }
+                rep.distinct += 1;
+            }
+            rep.traces = rep.evaluations;
         }
         Some("graphs") => {
             // every graph of a C05 family: repeated compilations (fresh hash seeds per map) and a few id gap
